@@ -8,7 +8,7 @@ From Verif Require Import model.Stream model.Body model.MultipartRef model.Multi
 From Verif Require model.Chunked.
 From Verif Require Import lib.PyIntHex.
 From Verif Require Import proofs.C07_fields proofs.C07_spec proofs.C07_ref proofs.C07_roundtrip proofs.C07_collect
-  proofs.C07_full proofs.C07_streaming proofs.C07_pipeline proofs.C07_pins.
+  proofs.C07_full proofs.C07_streaming proofs.C07_pipeline proofs.C07_proxy proofs.C07_pins.
 
 (* The regular expression re-implemented by Fields.scan_key/scan_value/opt_matches
    is the one in /repo today (text regenerated into Gen.v on every run). *)
@@ -152,6 +152,22 @@ Theorem C07_roundtrip_through_pipeline_chunked :
       /\ view body d = Some (expected fs).
 Proof. exact roundtrip_pipeline_chunked. Qed.
 Print Assumptions C07_roundtrip_through_pipeline_chunked.
+
+(* READS ARE A FUNCTION OF THE WINDOW POSITION.  For ANY sequence of seek (all
+   three whences, any offset) and read(n) on an upload whose window is [st, end]:
+   the position never leaves the window, and every read returns exactly the bytes
+   of the buffered body between the old and the new position — BytesIOProxy.read
+   positions the shared source itself, so reads through several uploads, or through
+   Request.body, may be interleaved freely (seeded change C07-5). *)
+Theorem C07_proxy_reads_stay_in_window :
+  (forall w, (fst w <= snd w)%Z -> pinv (proxy_open w)) /\
+  (forall p pos wh p', pinv p -> proxy_seek p pos wh = Some p' ->
+     pinv p' /\ p_st p' = p_st p /\ p_end p' = p_end p) /\
+  (forall body p sz b p', pinv p -> proxy_read body p sz = (b, p') ->
+     pinv p' /\ p_st p' = p_st p /\ p_end p' = p_end p /\ (p_pos p <= p_pos p')%Z /\
+     b = (if (p_pos p' =? p_pos p)%Z then [] else read_at body (p_pos p) (p_pos p' - p_pos p)%Z)).
+Proof. exact (conj proxy_open_inv (conj proxy_seek_inv proxy_read_window)). Qed.
+Print Assumptions C07_proxy_reads_stay_in_window.
 
 (* Finding F10 (not repaired): an upload whose file name is empty is delivered in
    forms with value None; the round trip therefore requires fn <> [] (in fld_ok). *)
